@@ -94,17 +94,21 @@ Theorem bridge_ch_pack fuel n v (w : W) :
 Proof.
   unfold gh_pack, len_obj. py_unfold. cbn.
   destruct v as [z|s]; cbn; [reflexivity|].
-  rewrite !ltb_nat.
-  destruct (Nat.ltb (length s) n) eqn:H1; cbn.
-  - assert (Hn : Nat.ltb n (length s) = false) by lia. rewrite ?Hn.
+  rewrite ?ltb_nat.
+  (* shorter than, as long as, or longer than the field - in whatever order the code tests it *)
+  destruct (lt_eq_lt_dec (length s) n) as [[Hlt|Heq]|Hgt].
+  - assert (H1 : Nat.ltb (length s) n = true) by lia. assert (H2 : Nat.ltb n (length s) = false) by lia.
+    rewrite ?H1, ?H2. cbn. rewrite ?ltb_nat, ?H1, ?H2. cbn.
     replace (Z.to_nat (Z.of_nat n - Z.of_nat (length s))) with (n - length s)%nat by lia.
-    rewrite Nat2Z.id.
+    rewrite ?Nat2Z.id.
     rewrite firstn_all2 by (rewrite app_length; unfold zeros; rewrite repeat_length; lia). reflexivity.
-  - destruct (Nat.ltb n (length s)) eqn:H2; cbn; [reflexivity|].
-    rewrite Nat2Z.id.
-    assert (Hl : length s = n) by lia.
+  - assert (H1 : Nat.ltb (length s) n = false) by lia. assert (H2 : Nat.ltb n (length s) = false) by lia.
+    rewrite ?H1, ?H2. cbn. rewrite ?ltb_nat, ?H1, ?H2. cbn.
+    rewrite ?Nat2Z.id.
     replace (n - length s)%nat with 0%nat by lia. change (zeros 0) with (@nil N). rewrite app_nil_r.
     rewrite firstn_all2 by lia. reflexivity.
+  - assert (H1 : Nat.ltb (length s) n = false) by lia. assert (H2 : Nat.ltb n (length s) = true) by lia.
+    rewrite ?H1, ?H2. cbn. rewrite ?ltb_nat, ?H1, ?H2. cbn. reflexivity.
 Qed.
 
 Theorem bridge_ch_unpack fuel n v0 data (w : W) :
